@@ -9,6 +9,7 @@ import (
 	"path/filepath"
 	"runtime"
 	"runtime/debug"
+	"sort"
 	"strconv"
 	"strings"
 	"sync"
@@ -31,6 +32,7 @@ type prepared struct {
 	pkg        string
 	changeHash string
 	digests    map[string]int
+	byIndex    map[int]string
 }
 
 var (
@@ -51,7 +53,8 @@ func depTarget(p *prepared, n int) *model.Target {
 	for i := 0; i < n; i++ {
 		outs = append(outs, model.NewOutput("file", outName(i)))
 	}
-	return &model.Target{Label: label.TL(p.pkg, "d"), Command: "true", Outputs: outs, ChangeHash: p.changeHash, IsSelected: true}
+	// the command runs only when a dependant has to re-make the dependency (a blob of the case is lost)
+	return &model.Target{Label: label.TL(p.pkg, "d"), Command: depCommand(n), Outputs: outs, ChangeHash: p.changeHash, IsSelected: true}
 }
 
 // prepare builds the cache entry of the dependency with n outputs through the real registry (ungated): the
@@ -60,7 +63,7 @@ func prepare(n int) (*prepared, error) {
 	if p, ok := byN[n]; ok {
 		return p, nil
 	}
-	p := &prepared{pkg: fmt.Sprintf("dep%d", n), changeHash: fmt.Sprintf("depload-change-hash-%d", n), digests: map[string]int{}}
+	p := &prepared{pkg: fmt.Sprintf("dep%d", n), changeHash: fmt.Sprintf("depload-change-hash-%d", n), digests: map[string]int{}, byIndex: map[int]string{}}
 	if err := os.MkdirAll(filepath.Join(wsRoot, p.pkg), 0755); err != nil {
 		return nil, err
 	}
@@ -75,6 +78,12 @@ func prepare(n int) (*prepared, error) {
 	if err != nil {
 		return nil, err
 	}
+	// WriteOutputs lists the outputs in the order in which its pool tasks finished; LoadOutputs waits for its restore
+	// tasks in the order of that list.  Fixed here to the order of the output indices, so that with the blobs m..n-1 lost
+	// the failure surfaces exactly when the outputs 0..m-1 are restored (what DepLoad.auto_step assumes)
+	sort.Slice(result.Outputs, func(a, b int) bool {
+		return result.Outputs[a].GetFile().GetPath() < result.Outputs[b].GetFile().GetPath()
+	})
 	if err := caching.NewTargetResultCache(store).Write(ctx, result); err != nil {
 		return nil, err
 	}
@@ -84,9 +93,20 @@ func prepare(n int) (*prepared, error) {
 			return nil, err
 		}
 		p.digests[o.GetFile().GetDigest().GetHash()] = idx
+		p.byIndex[idx] = o.GetFile().GetDigest().GetHash()
 	}
 	byN[n] = p
 	return p, nil
+}
+
+func classify(i int, data []byte) byte {
+	switch string(data) {
+	case currentOf(i):
+		return 'c'
+	case staleOf(i):
+		return 's'
+	}
+	return 't' // neither version: a half-written (or doubly written) file
 }
 
 // see is the dependant's command: it reads every output of the dependency
@@ -97,10 +117,8 @@ func see(p *prepared, n int) string {
 		switch {
 		case err != nil:
 			sb.WriteByte('m')
-		case string(data) == currentOf(i):
-			sb.WriteByte('c')
 		default:
-			sb.WriteByte('s')
+			sb.WriteByte(classify(i, data))
 		}
 	}
 	if n == 0 {
@@ -122,6 +140,28 @@ func runCase(f []string) string {
 	if err != nil {
 		return "error\tprepare: " + err.Error()
 	}
+	lostFrom := n
+	if len(f) > 5 && f[5] != "" {
+		if lostFrom, err = strconv.Atoi(f[5]); err != nil || lostFrom < 0 {
+			return "error\tlost blobs"
+		}
+	}
+	// the cache as prepared, but for the lost blobs; put back when the case is over (a re-run writes to it)
+	store.mu.Lock()
+	saved := make(map[string][]byte, len(store.data))
+	for key, v := range store.data {
+		saved[key] = v
+	}
+	for i := lostFrom; i < n; i++ {
+		delete(store.data, "cas/"+p.byIndex[i])
+	}
+	store.mu.Unlock()
+	defer func() {
+		store.mu.Lock()
+		store.data = saved
+		store.mu.Unlock()
+	}()
+	depRuns.reset()
 	// the workspace copies: stale or missing
 	for i := 0; i < n; i++ {
 		if len(f) > 4 && i < len(f[4]) && f[4][i] == 'm' {
@@ -164,11 +204,24 @@ func schedule(p *prepared, n, k int, ex *execution.Executor, deps []*model.Targe
 	started, finished := make([]bool, k), make([]bool, k)
 	var windows []string
 	verdict := ""
+	reruns := 0
 	settle := func(tok string) bool {
 		if st := waitQuiescent(store, quiesceTimeout); st != "" {
 			verdict = "stuck:" + strings.ReplaceAll(st, " ", "_")
 		}
-		windows = append(windows, tok+"/"+store.heldIndices()+"/"+store.drainEvents())
+		_, waiting, _ := depRuns.view()
+		events := store.drainEvents()
+		for _, e := range depRuns.newEvents() {
+			if e == "run" {
+				reruns++
+			}
+			if events == "-" {
+				events = e
+			} else {
+				events += "," + e
+			}
+		}
+		windows = append(windows, tok+"/"+store.heldIndices()+"/"+strconv.Itoa(len(waiting))+"/"+events)
 		return verdict == ""
 	}
 	release := func(highest bool) bool {
@@ -179,6 +232,13 @@ func schedule(p *prepared, n, k int, ex *execution.Executor, deps []*model.Targe
 		close(h.release)
 		return settle("g:" + strconv.Itoa(h.idx))
 	}
+	letGo := func() bool {
+		seq := depRuns.release()
+		if seq < 0 {
+			return settle("r:-")
+		}
+		return settle("r:" + strconv.Itoa(seq))
+	}
 	for _, tok := range tokens {
 		ok := true
 		switch {
@@ -186,10 +246,12 @@ func schedule(p *prepared, n, k int, ex *execution.Executor, deps []*model.Targe
 			ok = release(false)
 		case tok == "G":
 			ok = release(true)
+		case tok == "r":
+			ok = letGo()
 		case strings.HasPrefix(tok, "s"):
 			t, err := strconv.Atoi(tok[1:])
 			if err != nil || t < 0 || t >= k || started[t] {
-				windows = append(windows, tok+"/"+store.heldIndices()+"/refused")
+				windows = append(windows, tok+"/"+store.heldIndices()+"/0/refused")
 				continue
 			}
 			started[t] = true
@@ -213,15 +275,19 @@ func schedule(p *prepared, n, k int, ex *execution.Executor, deps []*model.Targe
 			break
 		}
 	}
-	// open the gate for whatever is still held, one read per window
+	// open the gates for whatever still waits, one per window: held reads first, then runs of the dependency's command
 	for verdict == "" {
 		store.mu.Lock()
 		left := len(store.held)
 		store.mu.Unlock()
-		if left == 0 {
+		_, waiting, _ := depRuns.view()
+		if left > 0 {
+			release(false)
+		} else if len(waiting) > 0 {
+			letGo()
+		} else {
 			break
 		}
-		release(false)
 	}
 	var pending []string
 	mu.Lock()
@@ -237,18 +303,45 @@ func schedule(p *prepared, n, k int, ex *execution.Executor, deps []*model.Targe
 			verdict = "hang"
 		}
 	}
-	// never leave a reader at the gate (only after a stuck verdict): the next case must start clean
+	// never leave a reader or a command at its gate (only after a stuck verdict): the next case must start clean
 	store.mu.Lock()
 	for _, h := range store.held {
 		close(h.release)
 	}
 	store.held, store.armed = nil, false
 	store.mu.Unlock()
+	for depRuns.release() >= 0 {
+	}
 	pend := "-"
 	if len(pending) > 0 {
 		pend = strings.Join(pending, "+")
 	}
-	return "trace\t" + strings.Join(append(windows, "end/"+pend+"/"+verdict), ";")
+	return "trace\t" + strings.Join(append(windows, "end/"+pend+"/"+verdict+"/"+cachedBytes(p, n, reruns)), ";")
+}
+
+// cachedBytes: what the cache holds for the dependency's result after a re-run (the bytes WriteOutputs read)
+func cachedBytes(p *prepared, n, reruns int) string {
+	if reruns == 0 || n == 0 {
+		return "-"
+	}
+	result, err := caching.NewTargetResultCache(store).Load(ctx, p.changeHash)
+	if err != nil || result == nil {
+		return strings.Repeat("m", n)
+	}
+	classes := []byte(strings.Repeat("m", n))
+	for _, o := range result.Outputs {
+		idx, err := strconv.Atoi(strings.TrimSuffix(strings.TrimPrefix(o.GetFile().GetPath(), "out"), ".txt"))
+		if err != nil || idx < 0 || idx >= n {
+			continue
+		}
+		store.mu.Lock()
+		data, ok := store.data["cas/"+o.GetFile().GetDigest().GetHash()]
+		store.mu.Unlock()
+		if ok {
+			classes[idx] = classify(idx, data)
+		}
+	}
+	return string(classes)
 }
 
 func main() {
@@ -264,6 +357,10 @@ func main() {
 	config.Global.WorkspaceRoot = wsRoot
 	config.Global.Root = filepath.Join(os.Args[1], "root")
 	config.Global.DisableProgressTracker = true
+	if err := setupRuns(os.Args[1]); err != nil {
+		fmt.Fprintln(os.Stderr, err)
+		os.Exit(2)
+	}
 	w.Loop(func(f []string) string {
 		switch f[0] {
 		case "caps":
